@@ -15,7 +15,8 @@ Proved for every input:
   rule stored for `(b', way back)` returns to `b` (all 12 × 8 entries; the base of the all-depth induction);
 * `neighbour_parts_total`: `neighbour_from_parts` never leaves the grid: the result has `d0h < 12`, `i, j < n`, for
   every `n ≥ 1`, every cell and every direction;
-* `neighbours_rejects`: a cell number `≥ 12·4^d` is rejected.
+* `neighbours_rejects`, `neighbour_rejects`: a cell number `≥ 12·4^d` is rejected by `neighbours` and by `neighbour`
+  (the latter since the repair of finding F20).
 Test (kernel evaluation, labelled as a test): for `n = 1, 2, 4` the neighbour lists are *exactly* the touching cells,
 with the labelling of the property (ordinal: the two vertices of that side; cardinal: that vertex only).
 Open statements: `neighbour_labelled`, `neighbours_complete` for every `n` (the correspondence check and the
@@ -95,6 +96,11 @@ theorem base_direction_tables_consistent : dirTablesOk = true := by decide
 theorem neighbours_rejects (cfg : Cfg) (d h : Nat) (inc : Bool) (hh : h ≥ Layer.nHash d) :
     neighbours cfg d h inc = none := by
   simp [neighbours, hh]
+
+/-- `neighbour(h, dir)` rejects an out-of-range cell number too (repaired behaviour of finding F20) -/
+theorem neighbour_rejects (cfg : Cfg) (d h : Nat) (dir : MW) (hh : h ≥ Layer.nHash d) :
+    neighbour cfg d h dir = none := by
+  simp [neighbour, hh]
 
 /-- **test** (kernel evaluation on the model, depths 0 and 1): exact adjacency with labels -/
 theorem exact_small_depths_test : exactAt 0 = true ∧ exactAt 1 = true := by
